@@ -99,7 +99,9 @@ Clauses(pre, e, post) == [
                            => e.ret = e.expect,
   C09_RateRange      |-> (e.op = "rate" /\ Ok(e) /\ e.tree)
                            => e.retnum.m1 \/ e.retnum.inrange,
-  C09_RateFrame      |-> (e.op = "rate") => LibPart(post) = LibPart(pre),
+  C09_RateFrame      |-> (e.op \in {"rate", "rate_passive"})
+                           => LibPart(post) = LibPart(pre),
+  C09_RateTotalPassive |-> (e.op = "rate_passive") => Ok(e),
   \* ---------------------------------------------------------------- C10
   C10_ArgsUnchanged  |-> e.argsame,
   C10_MutateInvisible |-> IsMutate(e) => LibPart(post) = LibPart(pre),
